@@ -136,7 +136,11 @@ func (r *Runner) monC11(s *Step) {
 		if all, _ := r.referenceSyncAllocatesAll(); all {
 			for _, c := range missing {
 				sg := r.Inst.Policy + ":" + kind
-				if c.UpdFailed {
+				if cr, ok := r.cacheRes(c.ID); s.Stale && ok && cr.Shares != c.Shadow.Shares {
+					// KF7: the stale cache's (older, different) CPU request of this container was kept instead of
+					// what the runtime reports, and that older request does not fit any more
+					sg += ":stale-requirements"
+				} else if c.UpdFailed {
 					sg += ":after-failed-update"
 				} else {
 					// e.g. another container's rejected resource update is still cached (KF1) and
